@@ -1634,3 +1634,18 @@ Proof.
   - rewrite andb_false_r. rewrite <- (Hsame ltac:(lia)).
     destruct ((a_type lst =? 2) || (a_type lst =? 3)); [discriminate|]. intros H; inversion H; reflexivity.
 Qed.
+
+(* run() returns normally exactly when the body succeeded and both files closed without error *)
+Lemma copier_outcome_ok c sc dc :
+  fst (copier_outcome c sc dc) = None <-> c_status c = COk /\ sc = true /\ dc = true.
+Proof.
+  unfold copier_outcome. destruct sc, dc; simpl; try (split; [discriminate|intros (_ & H1 & H2); discriminate]).
+  destruct (c_status c); simpl; split; try discriminate; try tauto; intros (H & _); discriminate.
+Qed.
+
+(* which error is reported when several occur: source close, then destination close, then the body *)
+Lemma copier_outcome_precedence c sc dc :
+  fst (copier_outcome c sc dc) =
+    if negb sc then Some ESrcClose else if negb dc then Some EDstClose
+    else if match c_status c with COk => true | _ => false end then None else Some EBody.
+Proof. unfold copier_outcome. destruct sc, dc; simpl; try reflexivity. destruct (c_status c); reflexivity. Qed.
